@@ -253,6 +253,15 @@ def run(ctx, rep):
                'sidereal + longitude - RA (up to an overall factor)' if ok else
                f'coefficients sidereal {co["sid"]:+.6g}, longitude {co["lon"]:+.6g}, RA {co["ra"]:+.6g}: not k*(sidereal + longitude - RA); '
                f'form: {show(a, maxd=5)[:160]}')
+    # shared mechanism (a necessary condition of this property too): the ephemeris is taken at the requested date
+    from . import shared, julian
+    shared.include(ctx, rep, lambda c_, r_: julian.check(c_, r_, 'R20.4'), {'R20.4'}, why='Julian Day of the requested date')
+    # shared mechanism: no wrap-induced jump of the interpolated right ascension / declination (R1.2)
+    from . import shared, modular, conv as _CV
+    shared.include(ctx, rep, lambda c_, r_: modular.check(c_, r_, _CV.get(c_)), {'R1.2'}, why='360->0 seam hygiene of the interpolation')
+    # shared mechanism: the clock-time conversion wraps into [0, 24) after the offset and cannot fail (R11.4, R11.7)
+    from . import shared, c11 as _c11
+    shared.include(ctx, rep, _c11.run, {'R11.4', 'R11.7'}, why='every reported hour becomes a valid clock time')
 
 
 def subterms_of_atoms(m):
